@@ -42,8 +42,13 @@ MANIFEST = {
             "every Peg.parse result (C09_shape_items: tree facts C09_shape_comment_texts / C09_shape_inner_pairs / "
             "C09_shape_do_statement — the last by a FIRST-byte analysis of the interpreter — carried through PegToItems.conv), "
             "so C09_parse_keeps_comments_text / C09_text_to_text_lib / _cli start from the text with that hypothesis and "
-            "wf_ast discharged; PARTIAL: forest_view_ok (the item view reads every comment pair) as a fact about Peg.parse "
-            "is stated, not proved (C09_view_items_full; tested on every tree, flag V); atoms_ok of "
+            "wf_ast discharged; since round VIEW the second shape hypothesis forest_view_ok (the item view reads every "
+            "comment pair) is PROVED of every Peg.parse result as well (C09_view_items = the former C09_view_items_full: a "
+            "uniform per-rule inner-pair specification computed from gen/Grammar.v, C09_view_inner_pairs / "
+            "C09_view_top_level, and the tree-level C09_view_conv over all ten structural arms of conv), flag V is now a "
+            "redundant cross-check, and C09_parse_keeps_comments_text_total / C09_text_to_text_lib_total / _cli_total "
+            "start from the text with only the exclusion forest_no_empty_container and the formatter-half stmt_ok_parsed "
+            "as hypotheses; PARTIAL: atoms_ok of "
             "the parser's output is not derived (comment_ok forbids a bare CR inside a comment, which the grammar admits); "
             "both findings stay open; blots-wasm is not built natively, its loop is mirrored in harness/src/s_c0809.rs; "
             "no axioms",
